@@ -35,19 +35,19 @@ ENV.update({
 #   race       also build the binary with -race and run `-mode race` (auxiliary pass)
 HANDLER_FILES = ["pkg/protocol/handler.go", "pkg/protocol/twoparty.go"]
 
-CHECKS = {
-    "C17": dict(cmd="c17", instrument=HANDLER_FILES, level="model_checking", shards=NCPU, race=True, env={"GOMAXPROCS": "1"},
-                engine="A:vsched", design_ref="DESIGN.md §2 engine A, §3 C17",
-                level_text="All interleavings (unbounded for 2 API threads + drainer; <=2-3 preemptions for larger ones) of concurrent Accept/CanAccept/Stop/Result/Listen calls on one real MultiHandler / TwoPartyHandler, with three drainer styles, judged against the lifecycle automaton (closed exactly once and only when terminal, Result fixed after close, Stop ends a running session and leaves a finished one alone, no panic, nobody blocked forever while a drainer runs); plus all call sequences of length <=3 on finished and aborted sessions. Tests drive handlers from one goroutine in one order.",
-                level_note="Trusted: the scheduler's model of Go mutex/channel semantics; plain memory accesses are not scheduling points (left to the auxiliary free-running -race pass over the same thread programs); the vproto mini-protocol replaces the cryptographic rounds.",
-                technique="stateless model checking of the real handler code under a controlled scheduler (DFS over interleavings, preemption bounding) + exhaustive call-sequence enumeration"),
-    "C18": dict(cmd="c18", instrument=["pkg/pool/pool.go"], level="model_checking", shards=NCPU, race=True, env={"GOMAXPROCS": "1"},
-                engine="A:vsched", design_ref="DESIGN.md §2 engine A, §3 C18",
-                level_text="Every interleaving of caller and workers at the synchronisation points of the real pkg/pool code is executed (all of them for w<=2 workers and small call lists, all with <=2-3 preemptions above that); each execution is judged against the sequential specification (results = [f(0..k-1)] / k non-nil), 'every call returns' and 'every worker terminates after TearDown'. Unit tests can only sample schedules; the lost-worker bug fixed in d24c499 needs the caller to observe the counter before receiving the last notification.",
-                level_note="Trusted: the scheduler's model of Go channel/mutex/atomic semantics (sequentially consistent); plain memory accesses are not scheduling points, so data races are left to the auxiliary free-running -race pass over the same call lists; task functions are instantaneous.",
-                technique="stateless model checking: exhaustive DFS over goroutine interleavings of the real pkg/pool code under a controlled scheduler (iterative preemption bounding; small configurations unbounded)"),
-}
+def load_checks():
+    """one JSON file per claimed property under /verif/checks: cmd (harness main package), instrument (files for engine A),
+    level, shards ("ncpu" or a number), race, env, args, engine, design_ref, level_text, level_note, technique, vmem_kb"""
+    out = {}
+    for f in sorted(glob.glob(os.path.join(VERIF, "checks", "C*.json"))):
+        cfg = json.load(open(f))
+        if cfg.get("shards") == "ncpu":
+            cfg["shards"] = NCPU
+        out[os.path.basename(f)[:-5]] = cfg
+    return out
 
+
+CHECKS = load_checks()
 
 NOT_APPLICABLE = {}
 
